@@ -16,7 +16,7 @@ class C30(Spec):
         "C30.expire_removes_whole_groups",
         "C30.expire_removes_whole_groups_partial",
         "C30.expire_removes_whole_groups_full_false",
-        "C30.expire_empty_header_regression",
+        "C30.expire_decodable_header_regression",
     )
     partial = ("C30.expire_removes_whole_groups_partial",)
     refuted = ("C30.expire_removes_whole_groups_full_false",)
@@ -26,14 +26,14 @@ class C30(Spec):
         "<= MaxBlockSize; result = expansion of a sub-list of pool entries, i.e. groups whole-or-nothing and order kept; "
         "no blacklisted transaction or group once the fork is active) and of CheckTxExpire (well-formed expanded list: "
         "exactly the segments without an expired member survive; the statement with field-level expiry is refuted on a "
-        "witness and proved under 'no member Header decodes as a group with at least one transaction'; regression theorem for the repaired empty-message case). The model is tied to system/consensus/base.go, "
+        "model witness and proved under 'no member Header decodes as that member's own packed group (GroupCount members all carrying GroupCount)'; regression theorem for the two repaired decodable-hash cases). The model is tied to system/consensus/base.go, "
         "cfg.GetP and the fork gate by a differential run on real types.Transaction values and groups (CreateTxGroup, "
         "signed with secp256k1) at counts/sizes on and around the limits, heights around the maxTxNumber forks and the "
         "blacklist fork, malformed group headers; the C30 predicates are evaluated on the implementation's block.")
     level_note = (
         "Transactions are abstracted to (id, Size(), touches-blacklisted-account); address matching of the blacklist is "
         "C31's subject. GetTxGroup/Size/IsExpire inputs are described by the harness through the repo's own functions. "
-        "Known finding (after repair c2f0f61 of the empty-message case): an expired group survives CheckTxExpire when its head hash parses as a Transactions message with one garbage transaction (~1 in 6.5e6 hashes; ground nonce rebuilt in every run).")
+        "No finding remains after repairs c2f0f61/879d416: the ground empty-decoding and one-garbage-tx-decoding group hashes are rebuilt in every run and must be removed; a forged 32-byte Header that passes isPackedGroupOf is run differentially only (as a real hash it needs ~2^48 trials, not exhibited).")
     assumptions = (
         "Transaction.Size() and GetTxGroup() are taken as given inputs (described per transaction by the harness)",
         "the blacklist core check is abstracted to a per-transaction flag; only the fork gate is modelled",
